@@ -11,9 +11,8 @@ CONFIG_NAMES = {'_cookie_name', '_cookie_max_age', '_cookie_path', '_cookie_doma
                 '_cookie_httponly', '_cookie_samesite', '_cookie_on_exception', '_timeout', '_reissue_time', '_dirty'}
 # class-level configuration of CookieSession (not translated: pinned literally)
 # (_cookie_max_age, _timeout, _reissue_time, _cookie_on_exception are TRANSLATED: harness/c10/translate_factory.py)
-CONFIG_EXPECTED = {'_cookie_name': 'cookie_name',
-                   '_cookie_path': 'path', '_cookie_domain': 'domain', '_cookie_secure': 'secure',
-                   '_cookie_httponly': 'httponly', '_cookie_samesite': 'samesite', '_dirty': 'False'}
+# (the six cookie-attribute class attributes too, since round 6)
+CONFIG_EXPECTED = {'_dirty': 'False'}
 # names of the model's methods (spelled here only to avoid writing code-point lists by hand in Coq)
 METHS = ['get', '__getitem__', 'items', 'values', 'keys', '__contains__', '__len__', '__iter__',
          'clear', 'update', 'setdefault', 'pop', 'popitem', '__setitem__', '__delitem__',
